@@ -129,7 +129,11 @@ C02Trailing(z) ==
     UNION {{PR(e, "tcp", RespADU("tcp", 4660, r) \o x, "mismatch") : e \in RespEntries("tcp", r.fc)} :
              r \in {Resp(fc, 1, 0, 0, Pat("ramp", n), <<>>, 0, <<>>) : fc \in {1, 2, 3, 4, 23}, n \in {2, 4, 250}},
              x \in {<<0>>, <<1, 2>>, <<255, 255, 255>>}}
-C02Cases(z) == C02Normal(0) \cup C02Exc(0) \cup (IF Part = 0 THEN C02Mismatch(0) \cup C02Trailing(0) ELSE {})
+\* an exception frame followed by stray bytes, and one cut short: neither is a response
+C02ExcTrailing(z) ==
+    UNION {{PR(e, "tcp", ExcADU("tcp", 4660, 1, f, code) \o x, "mismatch") : e \in DispEntries("tcp")} :
+             f \in {1, 3, 17, 100}, code \in {1, 2, 11, 200}, x \in {<<0>>, <<1, 2>>, <<255, 255, 255>>}}
+C02Cases(z) == C02Normal(0) \cup C02Exc(0) \cup (IF Part = 0 THEN C02Mismatch(0) \cup C02Trailing(0) \cup C02ExcTrailing(0) ELSE {})
 
 C02Self(k) == LET kd == ClassifyResp(k.framing, k.frame).kind IN kd = k._want \/ (k._want = "normal" /\ kd = "oversize")
 
